@@ -153,27 +153,71 @@ type sink struct {
 	port int
 	c    *net.UDPConn
 	got  chan struct{}
+	tcp  net.Listener  // truncate mode: the TCP side of the same host:port
+	tcpc chan struct{} // a TCP connection arrived there
 }
 
-func bindSink(host string, port int) (*sink, error) {
+// bindSink binds the UDP socket of one case. With truncate set every DNS query is answered with a TC reply and a TCP
+// listener is bound on the same host:port, where the retry over TCP has to arrive.
+func bindSink(host string, port int, truncate bool) (*sink, error) {
 	c, err := net.ListenUDP("udp", &net.UDPAddr{IP: net.ParseIP(host), Port: port})
 	if err != nil {
 		return nil, err
 	}
-	s := &sink{host: host, port: c.LocalAddr().(*net.UDPAddr).Port, c: c, got: make(chan struct{}, 1)}
+	s := &sink{host: host, port: c.LocalAddr().(*net.UDPAddr).Port, c: c, got: make(chan struct{}, 1), tcpc: make(chan struct{}, 4)}
+	if truncate {
+		l, err := net.Listen("tcp", net.JoinHostPort(host, strconv.Itoa(s.port)))
+		if err != nil {
+			c.Close()
+			return nil, err
+		}
+		s.tcp = l
+		go func() {
+			for {
+				cn, err := l.Accept()
+				if err != nil {
+					return
+				}
+				select {
+				case s.tcpc <- struct{}{}:
+				default:
+				}
+				cn.Close()
+			}
+		}()
+	}
 	go func() {
 		buf := make([]byte, 65535)
 		for {
-			if _, _, err := c.ReadFromUDP(buf); err != nil {
+			n, from, err := c.ReadFromUDP(buf)
+			if err != nil {
 				return
 			}
 			select {
 			case s.got <- struct{}{}:
 			default:
 			}
+			if truncate {
+				q := new(dns.Msg)
+				if q.Unpack(buf[:n]) == nil && !q.Response {
+					r := new(dns.Msg)
+					r.SetReply(q)
+					r.Truncated = true
+					if w, err := r.Pack(); err == nil {
+						c.WriteToUDP(w, from)
+					}
+				}
+			}
 		}
 	}()
 	return s, nil
+}
+
+func (s *sink) Close() {
+	s.c.Close()
+	if s.tcp != nil {
+		s.tcp.Close()
+	}
 }
 
 var setupErr error
@@ -239,6 +283,8 @@ type Case struct {
 	ViaDial         bool `json:"via_dial"`  // the URL names something else, dial_addr points at the sink
 	OmitPort        bool `json:"omit_port"` // leave the port out where the scheme default applies
 	Bootstrap       bool `json:"bootstrap"` // hostname resolved through a (harness) bootstrap server; destination = a TCP listener bound for the case
+	Truncate        bool `json:"truncate"`  // plain udp: the sink answers TC, the retry over TCP must reach the same host:port
+	Prior           bool `json:"prior"`     // TLS-based: another upstream (different host name) was created before from the same caller-supplied tls.Config
 }
 
 var loopHosts = []string{"127.0.0.1", "127.0.0.2", "127.1.2.15", "::1"}
@@ -264,6 +310,9 @@ func genCase(t *rapid.T) Case {
 		c.Port = 0
 		if c.Scheme == "h3" {
 			c.Path = "/dns-query"
+		}
+		if c.Scheme == "" || c.Scheme == "udp" {
+			c.Truncate = rapid.Bool().Draw(t, "truncate")
 		}
 		if c.ViaDial && (c.Scheme == "h3" || c.Scheme == "quic") {
 			c.Host, c.HostKind = names[rapid.IntRange(0, len(names)-1).Draw(t, "uname")], "name"
@@ -306,6 +355,9 @@ func genCase(t *rapid.T) Case {
 	case 3:
 		c.DialHost = v6forms[rapid.IntRange(0, len(v6forms)-1).Draw(t, "d6")]
 		c.DialAddr = c.DialHost // bare IPv6 without port
+	}
+	if c.Scheme == "tls" || c.Scheme == "tls+pipeline" || c.Scheme == "https" {
+		c.Prior = rapid.IntRange(0, 2).Draw(t, "prior") == 0
 	}
 	if c.Scheme == "https" {
 		c.Path = rapid.SampledFrom([]string{"/dns-query", "", "/q"}).Draw(t, "path")
@@ -370,12 +422,12 @@ func runCase(c Case, ctx *hx.Ctx) *hx.Failure {
 			port = def
 		}
 		var err error
-		sk, err = bindSink(loopHosts[c.Sink], port)
+		sk, err = bindSink(loopHosts[c.Sink], port, c.Truncate)
 		if err != nil {
 			ctx.Class("skipped:cannot-bind-sink")
 			return nil
 		}
-		defer sk.c.Close()
+		defer sk.Close()
 		hostStr := sk.host
 		kind := "v4"
 		if strings.Contains(hostStr, ":") {
@@ -466,6 +518,13 @@ func runCase(c Case, ctx *hx.Ctx) *hx.Failure {
 		vmu.Unlock()
 		return nil
 	}}
+	if c.Prior {
+		// the caller's tls.Config is shared by all upstreams it creates; an earlier upstream must not leave its name in it
+		if pu, err := upstream.NewUpstream(c.Scheme+"://prior-upstream.c18.test", opt); err == nil {
+			defer pu.Close()
+			ctx.Class("prior-upstream-from-same-tls-config")
+		}
+	}
 	addr := c.addr()
 	u, err := upstream.NewUpstream(addr, opt)
 	if err != nil {
@@ -502,6 +561,15 @@ func runCase(c Case, ctx *hx.Ctx) *hx.Failure {
 		case <-sk.got:
 		case <-time.After(2500 * time.Millisecond):
 			return hx.Failf("C18/wrong-destination", "NewUpstream(%q, dial_addr=%q): no datagram reached the configured destination %s:%d within 2.5 s", addr, c.DialAddr, sk.host, sk.port)
+		}
+		if c.Truncate {
+			// the reply was truncated: the same query goes out over TCP, to the same host and port
+			select {
+			case <-sk.tcpc:
+				ctx.Class("tcp-retry-after-truncation")
+			case <-time.After(2500 * time.Millisecond):
+				return hx.Failf("C18/wrong-destination", "NewUpstream(%q, dial_addr=%q): the udp reply was truncated, but no TCP connection reached the configured destination %s:%d within 2.5 s", addr, c.DialAddr, sk.host, sk.port)
+			}
 		}
 	} else {
 		select {
